@@ -216,7 +216,7 @@ def run(case):
             elif h[0] == "remove":
                 cube.global_coords.remove(f"u{h[1]}")
             else:
-                cube = cube[Q.dec_items(h[1])]
+                cube = cube[Q.np_ints(case["key"], Q.dec_items(h[1]))]
                 nodes.append(cube)
         except Exception as e:  # noqa
             exc = exc_name(e)
@@ -286,7 +286,7 @@ def run(case):
     for ni, its in case.get("branches", []):
         if ni < len(nodes):
             try:
-                sib = nodes[ni][Q.dec_items(its)]
+                sib = nodes[ni][Q.np_ints(case["key"], Q.dec_items(its))]
                 siblings.append(sib)
                 len(sib.global_coords)
             except Exception:  # noqa
